@@ -22,11 +22,25 @@ AbsStore(js, doc) ==
          e |-> [ek \in {ekey(r) : r \in es} |-> LET r == CHOOSE r \in es : ekey(r) = ek IN [cls |-> r.cls, props |-> Fn(r.props)]],
          doc |-> doc]
 
+\* the document view the recorder read back from the serialised text
+DocOfJson(v) ==
+    LET ns == ToSet(v.nodes)
+        es == ToSet(v.edges)
+    IN  IF Cardinality({r.n : r \in ns}) # Len(v.nodes) \/ Cardinality({ToSet(r.ends) : r \in es}) # Len(v.edges)
+        THEN [n |-> "duplicate", e |-> "duplicate"]
+        ELSE [n |-> [x \in {r.n : r \in ns} |-> LET r == CHOOSE r \in ns : r.n = x
+                                                  IN [cls |-> r.cls, props |-> Fn(r.props), gid |-> r.gid, labels |-> r.labels]],
+              e |-> [ek \in {ToSet(r.ends) : r \in es} |-> LET r == CHOOSE r \in es : ToSet(r.ends) = ek
+                                                         IN [cls |-> r.cls, props |-> Fn(r.props), label |-> r.label]]]
+NormDocView(d) == [n |-> [x \in DOMAIN d.n |-> [d.n[x] EXCEPT !.props = NormProps(@)]],
+                   e |-> [ek \in DOMAIN d.e |-> [d.e[ek] EXCEPT !.props = NormProps(@)]]]
+
 \* observed result (tagged by the adapter: none | bool | str | rec | list) against the predicted one
 ResOK(e, got) ==
     CASE e.k = "none"  -> got.k = "none"
       [] e.k = "val"   -> IF got.k = "rec" THEN e.v = [cls |-> got.v.cls, props |-> Fn(got.v.props)]
                           ELSE got.k \in {"bool", "str"} /\ e.v = got.v
+      [] e.k = "doc"   -> got.k = "doc" /\ DocOfJson(got.v) = e.v
       [] e.k = "anyof" -> got.k = "str" /\ got.v \in e.s
       [] e.k = "ids"   -> got.k = "list" /\ ToSet(got.v) = e.ids /\ Len(got.v) = e.n
       [] e.k = "pairs" -> got.k = "list" /\ {<<x[1], x[2]>> : x \in ToSet(got.v)} = e.pairs /\ Len(got.v) = e.n
@@ -45,10 +59,17 @@ Verdict(exp, line, js, got) ==
         THEN "deviation:" \o Deviation(Traces[tid].backend, cur, line.op, line.out, got)
     ELSE IF line.out # exp.out THEN "outcome: expected " \o exp.out \o " got " \o line.out
     ELSE IF ~ResOK(exp.res, line.res) THEN
-        (IF /\ line.op.op = "SecondNbr" /\ line.res.k = "list" /\ exp.res.k = "pairs"
+        (IF /\ exp.res.k = "doc" /\ line.res.k = "doc" /\ Traces[tid].fmt = "graphml"
+            /\ DocOfJson(line.res.v) = NormDocView(exp.res.v)
+         THEN "deviation:GraphMLNormalisesCR" ELSE
+         IF /\ line.op.op = "SecondNbr" /\ line.res.k = "list" /\ exp.res.k = "pairs"
             /\ {<<x[1], x[2]>> : x \in ToSet(line.res.v)} =
                    SecondNbrAsImplemented(cur, line.op.g, line.op.n, line.op.r1, line.op.c1, line.op.r2, line.op.c2)
          THEN "deviation:SecondHopRelationIgnored" ELSE "result")
+    ELSE IF /\ line.op.op = "Import" /\ Traces[tid].fmt = "graphml" /\ exp.out = "ok" /\ exp.res.k = "val"
+            /\ GraphHasCR(exp.st, exp.res.v)
+            /\ got.n = NormGraph(exp.st, exp.res.v).n /\ got.e = NormGraph(exp.st, exp.res.v).e
+        THEN "deviation:GraphMLNormalisesCR"
     ELSE IF got.n # exp.st.n THEN "state.nodes"
     ELSE IF got.e # exp.st.e THEN "state.edges"
     ELSE IF ~FrameOK(cur, line.op, got) THEN "frame"
